@@ -5,6 +5,7 @@
                                                     get_coinspends_with_conditions_for_trusted_block
      chia-consensus/src/get_puzzle_and_solution.rs  parse_coin_spend, get_puzzle_and_solution_for_coin
      chia-protocol/src/spend_bundle.rs              SpendBundle::additions
+     chia-consensus/src/solution_generator.rs       build_generator, solution_generator (over the recovered coin spends)
    CLVM evaluation is the oracle `run`.  Definitions only. *)
 From ChiaV.Base Require Import Bytes.
 From ChiaV.Clvm Require Import Sexp Ints TreeHash.
@@ -28,6 +29,42 @@ Definition program_of (t : sexp) : bytes :=
   match ser t with
   | Some b => if 2000000 <? nlen b then [x80] else b
   | None => [x80]
+  end.
+
+(* ---------------- solution_generator.rs: build_generator / solution_generator over coin spends ----------------
+   (q . ((parent puzzle amount solution) ...)); reveal and solution are parsed with node_from_bytes_backrefs, the amount
+   is a.new_number (canonical atom); every spend is consed onto the FRONT of the list, so the generator lists the
+   spends in reverse order of the input; node_to_bytes has a 2 000 000 byte limit *)
+Definition spend_item (cs : coin_spend) : option sexp :=
+  match node_from_bytes_backrefs (cs_solution cs), node_from_bytes_backrefs (cs_puzzle cs) with
+  | Some sol, Some puz =>
+      Some (Pair (Atom (co_parent (cs_coin cs)))
+                 (Pair puz (Pair (Atom (canon_n (co_amount (cs_coin cs)))) (Pair sol nil))))
+  | _, _ => None
+  end.
+
+Fixpoint prepend_spends (spends : list coin_spend) (spend_list : sexp) : option sexp :=
+  match spends with
+  | [] => Some spend_list
+  | s :: r => match spend_item s with
+              | Some item => prepend_spends r (Pair item spend_list)
+              | None => None
+              end
+  end.
+
+Definition build_generator (spends : list coin_spend) : option sexp :=
+  match prepend_spends spends nil with
+  | Some l => Some (Pair (Atom [x01]) (Pair l nil))
+  | None => None
+  end.
+
+Definition solution_generator (spends : list coin_spend) : option bytes :=
+  match build_generator spends with
+  | Some g => match ser g with
+              | Some b => if 2000000 <? nlen b then None else Some b
+              | None => None
+              end
+  | None => None
   end.
 
 Section Trusted.
